@@ -37,6 +37,9 @@ def role_of_type(ty):
     return None
 
 
+CLOSURE_FACTS = None
+
+
 def canon(b, t):
     """replace stack places by role symbols; drop mutation versions and call occurrence counters"""
     if not isinstance(t, tuple) or not t:
@@ -60,6 +63,11 @@ def canon(b, t):
         return (k, inner) + tuple(t[2:3])
     if k == 'call':
         return ('call', strip_generics(t[1]).split('::')[-1], tuple(canon(b, a) for a in t[2]))
+    if k == 'closure':
+        # two copies of the same closure have different definition paths: identify a closure by what it calls and captures
+        cb = CLOSURE_FACTS.body(t[1]) if CLOSURE_FACTS is not None else None
+        calls = tuple(sorted({cname(ct) for _bb, ct in cb.calls() if cname(ct)})) if cb is not None else ()
+        return ('closure', calls, tuple(canon(b, a) for a in t[2]))
     if k == 'icall':
         return ('icall', canon(b, t[1]), tuple(canon(b, a) for a in t[2]))
     if k == 'widen':
@@ -70,6 +78,8 @@ def canon(b, t):
 
 
 def reduce_facts(facts, R, b):
+    global CLOSURE_FACTS
+    CLOSURE_FACTS = facts
     tab, lookup, lh = arms(facts, R, b)
     out = []
     for p in tab.get('Reduce', []):
@@ -171,10 +181,31 @@ def r81_82_83(facts, res):
                     def is_last(ix):
                         return ix is not None and ix[0] == 'bin' and ix[1] == 'Sub' and ix[3] == ('const', 1) and is_call(ix[2], 'len') \
                             and canon(b, ix[2][2][0]) == ('role', 'SPANS')
+                    def first_nonempty(t):
+                        # map_or / unwrap_or over find(iter(spans[pop_idx-1 ..]), |s| !s.is_empty()) with the END of the last entry as
+                        # the fallback: the start of the first popped entry that derived something
+                        t = strip_ref(t)
+                        fs = [x for x in subterms(t) if is_call(x, 'find')]
+                        if not fs:
+                            return False
+                        sl = [x for x in subterms(fs[0]) if is_call(x, 'index') and len(x[2]) == 2 and canon(b, x[2][0]) == ('role', 'SPANS')
+                              and isinstance(x[2][1], tuple) and x[2][1] and x[2][1][0] == 'variant' and x[2][1][3] == 'RangeFrom']
+                        if not sl or not is_pop_first(sl[0][2][1][4][0]):
+                            return False
+                        clos = [facts.body(x[1]) for x in subterms(t) if isinstance(x, tuple) and x and x[0] == 'closure']
+                        clos = [cb for cb in clos if cb is not None]
+                        pred = [cb for cb in clos if cb.calls_named('is_empty') or cb.calls_named('len')]
+                        takes_start = has_call(t, 'start') or any(cb.calls_named('start') for cb in clos)
+                        if not pred or not takes_start:
+                            return False
+                        return term_has(t, lambda x: x == strip_ref(d))
                     if a == d:
                         res.ok('R8.7', k7, loc_of(b, e[1]), 'zero-length span %s' % fmt_term(sp)[:80])
+                    elif first_nonempty(a) and is_last(id_):
+                        res.ok('R8.7', k7, loc_of(b, e[1]), 'from the start of the first popped entry that derived something (else zero-length at the end) to the end of the last one')
                     elif is_pop_first(ia) and is_last(id_):
-                        res.ok('R8.7', k7, loc_of(b, e[1]), 'from the start of the first popped entry to the end of the last one')
+                        res.bad('R8.7', k7, loc_of(b, e[1]), 'the span starts at the first popped entry even when that entry derived nothing: an empty leading symbol sits at the end of '
+                                'whatever precedes the production, so the span then starts before the first lexeme the production derived (skipped text is included)')
                     else:
                         res.bad('R8.7', k7, loc_of(b, e[1]), 'the span is neither (start of the first popped entry spans[pop_idx-1], end of the last entry) nor zero-length: %s - '
                                 'a production that derives no lexeme is handed a span that covers text it did not derive' % fmt_term(sp)[:160])
